@@ -513,9 +513,22 @@ class Runner:
     def do_copy(self, st):
         o = self.pick(st["level"], st["idx"])
         live_before = {int(x.p.serialNum) for x in all_live(self.r)} | {int(x.p.serialNum) for cp in self.extra_live for x in subtree(cp)}
+        # an entry the history tracker keeps on the collection (parameter name, time step)
+        hist_key, hist_val = ("vP0", 2 + st["u"] % 3), 0.5 + st["u"]
+        try:
+            o.p[hist_key] = hist_val
+        except Exception:  # noqa: BLE001
+            hist_key = None
         before = snapshot(o)
         cp = copy.deepcopy(o)
         self.probe("deepcopies")
+        if hist_key is not None:
+            try:
+                got_h = cp.p[hist_key]
+            except Exception as e:  # noqa: BLE001
+                got_h = f"<{type(e).__name__}>"
+            if got_h != hist_val:
+                self.fail("C16.copy", f"deep copy of {type(o).__name__}: the entry p[{hist_key}] = {hist_val} of the original reads {got_h} in the copy", what="history-entry")
         orig_objs = subtree(o)
         copy_objs = subtree(cp)
         if len(orig_objs) != len(copy_objs):
